@@ -116,7 +116,8 @@ VLoop(x, xhi, y, rv, xi, yc, path) ==                        \* one quotient dig
       quo2 == IF ab THEN WSub(d3.q, One) ELSE d3.q           \* vartime code: wrapping_sub
       xhi2 == x2[xi + 1]
       x3   == [x2 EXCEPT ![xi + 1] = quo2]
-      p2   == Append(path, <<d3.qmaxed, d3.corr, ab, d3.pre>>)
+      toponly == ab /\ sm[3] = Zero                          \* add-back although the low limbs did not borrow: visible in x_hi - carry alone
+      p2   == Append(path, <<d3.qmaxed, d3.corr, ab, d3.pre, toponly>>)
   IN IF xi = yc - 1 THEN <<x3, xhi2, p2>> ELSE VLoop(x3, xhi2, y, rv, xi - 1, yc, p2)
 
 DivRemVartime(n, d, ll, yc) ==
